@@ -145,6 +145,36 @@ fn case_set_doy(from_day: i64, n: u32, use_dt: bool, acc: &mut Acc) {
     }
 }
 
+/// DateTime::set_day_of_year under an offset that puts the local date on another day than the UTC date:
+/// the day of year is a *local* field
+fn case_set_doy_offset(from_day: i64, nod: u64, off: i32, n: u32, acc: &mut Acc) {
+    use crate::refmodel::instant as ins;
+    let x = match crate::real::dt_from_off(from_day, nod, off) {
+        Some(x) => x,
+        None => return,
+    };
+    let local = ins::join(from_day, nod) + off as i128 * ins::NS;
+    let expect_local = crate::refmodel::fields::set_field(local, 3, n as i64);
+    if local < ins::MIN_INSTANT + 2 * ins::DAY || local > ins::MAX_INSTANT - 2 * ins::DAY {
+        return;
+    }
+    acc.transitions += 1;
+    acc.states += 1;
+    let got = call_res(|| x.set_day_of_year(n).map(|v| (crate::real::dt_instant(&v), v.day_of_year(), v.weekday() as u32)));
+    let case = || json!({"from_day": from_day, "nod": nod.to_string(), "off": off, "n": n, "kind": "set_doy_offset"});
+    match (expect_local, &got) {
+        (Some(l2), Out::Val((inst, doy, wd))) => {
+            let f = ins::decompose(l2);
+            if *inst != Some(l2 - off as i128 * ins::NS) || *doy != n || *wd != f.wd {
+                acc.violation("DateTime::set_day_of_year", "set-doy-with-offset", case(), format!("local day of year {} weekday {} instant {}", n, f.wd, l2 - off as i128 * ins::NS), format!("instant {:?} day_of_year {} weekday {}", inst, doy, wd));
+            }
+            acc.branch("set-doy-offset-lands");
+        }
+        (None, Out::Err(_)) => acc.branch("set-doy-refused"),
+        (e, other) => acc.violation("DateTime::set_day_of_year", "set-doy-with-offset-refusal", case(), format!("{:?}", e.is_some()), other.show()),
+    }
+}
+
 fn sweep_getters(rep: &mut Report, name: &str, lo: i64, hi: i64, use_dt: bool) {
     rep.sweep_chunked(name, (hi - lo + 1) as u64, "weekday()/day_of_year() against the walker", |a, b, acc| {
         let mut w = Walker::at(lo + a as i64);
@@ -212,7 +242,7 @@ pub fn run(ctx: &Ctx) -> i32 {
         "ISO week reference computed from (weekday, day of year, weeks-in-year), not from the Tondering formula used by the subject".into(),
         "a day number is reached through from_timestamp (C03)".into(),
     ];
-    rep.require(&["getters-bc", "getters-ad", "week1-in-december", "week52/53-in-january", "week53", "e-widths", "set-doy-lands", "set-doy-refused"]);
+    rep.require(&["getters-bc", "getters-ad", "week1-in-december", "week52/53-in-january", "week53", "e-widths", "set-doy-lands", "set-doy-refused", "set-doy-offset-lands"]);
     let checked = PROFILE == "checked";
     let full = (cal::MIN_DAY, cal::MAX_DAY);
     if ctx.thorough || checked {
@@ -256,6 +286,15 @@ pub fn run(ctx: &Ctx) -> i32 {
         sweep_set_doy(&mut rep, "set_doy:landmark-years:Date", &landmark_astro_years(), false);
         sweep_set_doy(&mut rep, "set_doy:landmark-years:DateTime", &landmark_astro_years(), true);
     }
+    // the setter on DateTimes whose local date differs from the UTC date
+    let ddays = ab::days_b_small();
+    let combos: [(u64, i32); 6] = [(82_800_000_000_000, 7_200), (1_800_000_000_000, -3_600), (43_200_000_000_000, 43_200), (43_199_999_999_999, -43_200), (86_399_999_999_999, 1), (0, -86_399)];
+    let ns: Vec<u32> = vec![0, 1, 2, 59, 60, 61, 100, 364, 365, 366, 367];
+    let (nd, nc, nn) = (ddays.len() as u64, combos.len() as u64, ns.len() as u64);
+    rep.sweep("set_doy:DateTime with offsets (local date differs from UTC date)", nd * nc * nn, "DAYS_B' x 6 (time, offset) combinations x day-of-year menu", |i, acc| {
+        let (nod, off) = combos[(i / nn % nc) as usize];
+        case_set_doy_offset(ddays[(i / (nn * nc)) as usize], nod, off, ns[(i % nn) as usize], acc);
+    });
     rep.finish()
 }
 
@@ -273,6 +312,7 @@ pub fn replay(_op: &str, case: &Value, acc: &mut Acc) -> bool {
     match case["kind"].as_str() {
         Some("getters") => case_getters(&Walker::at(case["day"].as_i64().unwrap()), use_dt, acc),
         Some("format") => case_format(&Walker::at(case["day"].as_i64().unwrap()), use_dt, case["all_e"].as_bool().unwrap_or(false), acc),
+        Some("set_doy_offset") => case_set_doy_offset(case["from_day"].as_i64().unwrap(), case["nod"].as_str().unwrap().parse().unwrap(), case["off"].as_i64().unwrap() as i32, case["n"].as_u64().unwrap() as u32, acc),
         Some("set_doy") => case_set_doy(case["from_day"].as_i64().unwrap(), case["n"].as_u64().unwrap() as u32, use_dt, acc),
         _ => return false,
     }
